@@ -717,6 +717,12 @@ func classify(stages []*stageDef, cons *consDef, a *analysis, c caseID, o obs, v
 	// (iterator.FirstN tests i == n only after pulling the next element). Matches when the demand chain
 	// with exactly these read-aheads leaves the analysed prefix although the needed prefix is finite.
 	if chainRequest(stages, cons, a, c.K, true, cons.multiUse) == unbounded {
+		// F08c: what is left of F08a after its repair (aabc9d5): top(0) still asks for one item, because
+		// a multiUse consumer l->l.top(0).size() has to iterate its list or multiUse reports a time-out.
+		// Only the consumer can be a top(0) here (the top stages are top(2) and top(5)).
+		if cons.exhaustsTop && c.K == 0 && chainRequest(stages, cons, a, c.K, false, cons.multiUse) != unbounded {
+			return "F08c-top-zero-asks-for-one-item-behind-filter"
+		}
 		return "F08a-top-reads-ahead-behind-filter"
 	}
 	return ""
